@@ -37,7 +37,7 @@ evars == <<pc, cfg, ffq, ff, pend, valid, invalid, seed, cur, flag, e1, e2, buf,
            best, orig, sErr, cache, shrinks, rep, tbFailed, tbFailNow, mon, viol>>
 
 ---------------------------------------------------------------------------
-NoStream == [id |-> "none"]
+NoStream == [id |-> "none", src |-> "none"]
 NoErr    == [class |-> "none", site |-> "", msg |-> ""]
 NoObs    == [sig |-> "none", site |-> "", msg |-> "", ended |-> "running", nfw |-> "", draws |-> <<>>]
 NoRep    == [kind |-> "none", valid |-> -1, seed |-> Zero, hasseed |-> FALSE, failfile |-> "", msg |-> ""]
@@ -94,9 +94,9 @@ E_RunBegin(c) ==
 V_FFList(files) ==
   If(\E f \in cfg.expectFF : \A i \in 1..Len(files) : files[i] # f, "ff_not_found")
   \cup If(pc # "list", "ff_list_order")
-E_FFList(files) ==
-  /\ ffq' = files /\ pc' = "ff"
-  /\ UNCHANGED <<cfg, ff, pend, valid, invalid, seed, cur, flag, e1, e2, buf, best, orig, sErr, cache, shrinks, rep, tbFailed, tbFailNow, mon>>
+E_FFList(files, base) ==
+  /\ ffq' = files /\ pc' = "ff" /\ seed' = base
+  /\ UNCHANGED <<cfg, ff, pend, valid, invalid, cur, flag, e1, e2, buf, best, orig, sErr, cache, shrinks, rep, tbFailed, tbFailNow, mon>>
 
 (* checkFailFile: load *)
 V_FFLoad(f, usable) ==
@@ -179,7 +179,7 @@ E_Ret(err) ==
         !.anySig   = @ \/ (k \in {"ff1", "ff2", "gen"} /\ real),
         !.realFail = @ \/ (k \in {"ff1", "gen"} /\ real),
         !.firstObs = IF k \in {"ff1", "gen"} /\ IsFail(err) /\ ~IsFail(e1) THEN o ELSE @,
-        !.failDraws = IF k \in {"ff1", "gen"} /\ IsFail(err) /\ ~IsFail(e1) THEN o.draws ELSE @,
+        !.failDraws = IF k \in {"ff1", "gen"} /\ real /\ ~mon.realFail THEN o.draws ELSE @,   \* the test case that really failed first
         !.fromFF   = IF k = "ff1" /\ IsFail(err) THEN TRUE ELSE @,
         !.failSeed = IF k = "gen" /\ IsFail(err) THEN seed ELSE @,
         !.passes   = IF k = "gen" /\ err.class = "none" THEN @ + 1 ELSE @,
@@ -257,12 +257,14 @@ V_DoCheckRet(r) ==
   If(r.valid # (IF mon.fromFF THEN 0 ELSE valid), "ret_valid")
   \cup If(~IsFail(e1) /\ ~IsFail(e2) /\ r.invalid # invalid, "ret_invalid")
   \cup If(IsFail(r.e1) # IsFail(e1) \/ IsFail(r.e2) # IsFail(e2), "ret_errors")
-  \cup If((IsFail(e1) \/ IsFail(e2)) /\ r.buf.id # buf.id, "ret_buffer")
+  \cup If((IsFail(e1) \/ IsFail(e2)) /\ buf.src # "seed" /\ r.buf.id # buf.id, "ret_buffer")
   \cup If(~IsFail(e1) /\ ~IsFail(e2) /\ pc \in {"gen", "ff"} /\ V_NoBug(r.early) # {}, "ret_budget")
+  \cup If(r.early, "early_exit_without_deadline")   \* the harness never runs a check under a test deadline
 E_DoCheckRet(r) ==
   /\ pc' = "report"
   /\ mon' = [mon EXCEPT !.early = r.early]
-  /\ UNCHANGED <<cfg, ffq, ff, pend, valid, invalid, seed, cur, flag, e1, e2, buf, best, orig, sErr, cache, shrinks, rep, tbFailed, tbFailNow>>
+  /\ buf' = IF buf.src = "seed" THEN r.buf ELSE buf   \* a failure that did not reproduce is returned as the words recorded from its seed
+  /\ UNCHANGED <<cfg, ffq, ff, pend, valid, invalid, seed, cur, flag, e1, e2, best, orig, sErr, cache, shrinks, rep, tbFailed, tbFailNow>>
 
 ---------------------------------------------------------------------------
 (* the fail file is written *)
@@ -318,6 +320,14 @@ E_FailNow ==
   /\ UNCHANGED <<cfg, ffq, ff, pend, valid, invalid, seed, cur, flag, e1, e2, buf, best, orig, sErr, cache, shrinks, rep, mon>>
 
 (* Check returned (or ended in FailNow): what the caller can see *)
+\* MakeCheck under a real *testing.T: what the TB was told is not observable, only the sub-test's status
+V_RunEndNoTB(failed) ==
+  If(mon.anySig /\ ~failed, "falsification_lost")
+  \cup If((IsFail(e1) \/ IsFail(e2)) /\ ~failed, "falsification_lost")
+  \cup If(~failed /\ valid # cfg.checks, "vacuous_pass")
+  \cup If(~failed /\ mon.gens # valid + invalid, "extra_invocations")
+  \cup If(failed /\ ~IsFail(e1) /\ ~IsFail(e2) /\ valid = cfg.checks, "onlygen_despite_enough")
+
 V_RunEnd(failed, failnow) ==
   If(mon.anySig /\ ~failed, "falsification_lost")
   \cup If((IsFail(e1) \/ IsFail(e2)) /\ ~failed, "falsification_lost")
@@ -354,7 +364,7 @@ VerdictOf ==
     C07 |-> {"report_seed", "seed_replay_differs", "seed_run_differs", "repro_seed"},
     C09 |-> {"gen_after_failure", "gen_beyond_budget", "vacuous_pass", "pass_count", "no_failnow", "stopped_early",
              "onlygen_despite_enough", "extra_invocations", "gen_before_failfiles", "pass_without_verdict",
-             "failed_without_report", "onlygen_count", "ret_budget"},
+             "failed_without_report", "onlygen_count", "ret_budget", "early_exit_without_deadline"},
     C11 |-> {"phantom_failure", "lost_failure", "reported_failure_never_happened", "flaky_report", "skip_misjudged",
              "label_carried_over", "failure_message", "dead_context_in_body"},
     C17 |-> {"ff_ignored_silently", "ff_changed_verdict", "ff_changed_cases", "ff_after_failure", "ff_order"} ]
